@@ -557,6 +557,26 @@ func (c *conn) Close() error {""")]),
 		return 1
 	}
 """)]),
+ ("c07-handler-under-conn-ctx", "C07", [("serveconn.go", "msg, err := c.handler.Handle(ctx, req.Message)", "msg, err := c.handler.Handle(c.ctx, req.Message)")]),
+ ("c11-read-retry-non-net-error", "C11", [("serveconn.go", """			if err, ok := err.(net.Error); ok {
+				if err.Timeout() || err.Temporary() {
+					// TODO(stevvooe): A full idle timeout on the connection
+					// should be enforced here. No logging because it is quite
+					// chatty.
+					continue
+				}
+			}
+""", """			if err, ok := err.(net.Error); !ok || err.Timeout() || err.Temporary() {
+				continue
+			}
+""")]),
+ ("c12-read-deadline-conditional", "C12", [("channel.go", """	if err := ch.conn.SetReadDeadline(deadline); err != nil {
+		log.Printf("p9p: transport: error setting read deadline on %v: %v", ch.conn.RemoteAddr(), err)
+	}""", """	if ok {
+		if err := ch.conn.SetReadDeadline(deadline); err != nil {
+			log.Printf("p9p: transport: error setting read deadline on %v: %v", ch.conn.RemoteAddr(), err)
+		}
+	}""")]),
  ("c05-no-notag-skip", "C05", [("transport.go", """		hint++
 		if hint == NOTAG {
 			hint = 0
